@@ -160,7 +160,7 @@ Theorem generic_iter_rows_is_model ak po (rows : list row) (owners : list (pbval
     ys = map (fun e => Some (obj_of_event e)) evs /\
     match r, err with
     | Val _, None => GRdec Generic ak po d' st'
-    | Exn e, Some me => err_ok e me
+    | Exn e, Some me => err_ok_gen e me
     | _, _ => False
     end
   end.
@@ -180,7 +180,7 @@ Theorem generic_iter_rows_on_built_frame ak po (rows : list row) (d : GDec) st :
     ys = map (fun e => Some (obj_of_event e)) evs /\
     match r, err with
     | Val _, None => GRdec Generic ak po d' st'
-    | Exn e, Some me => err_ok e me
+    | Exn e, Some me => err_ok_gen e me
     | _, _ => False
     end
   end.
